@@ -4,7 +4,10 @@ package res
 import (
 	"encoding/json"
 	"maps"
+	"math/rand/v2"
+	"regexp"
 	"slices"
+	"strings"
 
 	"github.com/cosi-project/runtime/pkg/resource"
 	"github.com/cosi-project/runtime/pkg/resource/meta"
@@ -170,4 +173,63 @@ func must(err error) {
 	if err != nil {
 		panic(err)
 	}
+}
+
+// GenIDRegexp returns a seeded regular expression over resource ids: literals taken from the ids (whole, prefix, infix,
+// suffix; anchored at either, both or no end), classes, alternations, case-folded and degenerate forms. The reference answer
+// is always regexp.MatchString itself - what is under test is that every path evaluates exactly that.
+func GenIDRegexp(rng *rand.Rand, ids []string) *regexp.Regexp {
+	id := ids[rng.IntN(len(ids))]
+	lit := id
+
+	if r := []rune(id); len(r) > 1 {
+		switch rng.IntN(4) {
+		case 0: // whole id
+		case 1:
+			lit = string(r[:1+rng.IntN(len(r)-1)])
+		case 2:
+			lit = string(r[1+rng.IntN(len(r)-1):])
+		case 3:
+			a := rng.IntN(len(r))
+			lit = string(r[a : a+1+rng.IntN(len(r)-a)])
+		}
+	}
+
+	q := regexp.QuoteMeta(lit)
+
+	var expr string
+
+	switch rng.IntN(14) {
+	case 0, 1, 2:
+		expr = q // unanchored literal: "contains"
+	case 3:
+		expr = "^" + q
+	case 4:
+		expr = q + "$"
+	case 5:
+		expr = "^" + q + "$"
+	case 6:
+		expr = "(?i)" + strings.ToUpper(q)
+	case 7:
+		expr = "^(" + regexp.QuoteMeta(id) + "|" + regexp.QuoteMeta(ids[rng.IntN(len(ids))]) + ")$"
+	case 8:
+		expr = q + "|" + regexp.QuoteMeta(ids[rng.IntN(len(ids))])
+	case 9:
+		expr = "^" + q + "."
+	case 10:
+		expr = "[" + regexp.QuoteMeta(string([]rune(id)[:1])) + "0-9]$"
+	case 11:
+		expr = ""
+	case 12:
+		expr = "^.$"
+	case 13:
+		expr = lit // unquoted: ids with metacharacters ("a.", "w-1") become real patterns
+	}
+
+	re, err := regexp.Compile(expr)
+	if err != nil {
+		return regexp.MustCompile(q)
+	}
+
+	return re
 }
